@@ -353,6 +353,10 @@ def loop_runs() -> Any:
             if kind == "label":
                 for e in es:
                     e.pop("add_at"), e.pop("remove_at")
+            elif d["broken_first"]:
+                # a sibling schedule with an unparsable expression listed BEFORE the others (a typo: four fields; a step that is no
+                # number): it is skipped with a warning, the entries behind it are looked at all the same
+                es.insert(0, {"id": f"x{si}", "cron": d["broken_first"], "offset": None, "add_at": 0, "remove_at": None, "malformed": True})
             elif d["shot_first"]:
                 # an overdue one-shot listed BEFORE the cron entries, by a source that hands out its own list and drops a sent one-shot
                 # from it in post_send: the cron entries behind it are looked at all the same
@@ -377,6 +381,7 @@ def loop_runs() -> Any:
         # the first source is the label-based one: all its entries are declared on ONE task, each with an offset of its own (or none)
         "label": st.sampled_from([False, True]),
         "shot_first": st.sampled_from([False, False, True]),
+        "broken_first": st.sampled_from([None, None, None, "30 12 * *", "* */x * * *", "*/x * * * *", "61 * * * *"]),
         "retime": st.sampled_from([None, None, "all", "none", "third"]),
         # how long the broker takes to accept a message: a send that is still in progress when the next matching minute arrives
         # does not make the schedule any less due
@@ -405,7 +410,7 @@ def run_loop_case(case: Dict[str, Any]) -> Outcome:
         start = min(p[j]["t"] for p in polls)
         ev = max(p[j]["ret"] for p in polls)
         crossed = crossed or (start // MIN != ev // MIN)
-        listed = [i for p in polls for i in p[j]["listed"] if "cron" in ent[i]]
+        listed = [i for p in polls for i in p[j]["listed"] if "cron" in ent[i] and not ent[i].get("malformed")]
         def cron_at(i: str, us: int) -> str:
             # the expression an entry had when ITS source was asked in this pass (a slow sibling source delays only the evaluation)
             for rt in case.get("retime", ()):
@@ -415,14 +420,14 @@ def run_loop_case(case: Dict[str, Any]) -> Outcome:
             return ent[i]["cron"]
 
         want = sorted(i for i in listed if cron.matches(cron_at(i, ev), local_of(ev, ent[i]["offset"])))
-        got = sorted(k["tag"] for k in res["kicks"] if abs(k["t"] - ev) <= 2 and k["tag"] in ent and "cron" in ent[k["tag"]])
+        got = sorted(k["tag"] for k in res["kicks"] if abs(k["t"] - ev) <= 2 and k["tag"] in ent and "cron" in ent[k["tag"]] and not ent[k["tag"]].get("malformed"))
         if want != got:
             out.add("C13.a", f"pass {j}: listing started {clock.from_us(start).time().isoformat()} and completed {clock.from_us(ev).time().isoformat()} UTC; sent at that instant "
                              f"{[(i, cron_at(i, ev), ent[i]['offset']) for i in got]}, but the expressions matching that minute are {[(i, cron_at(i, ev), ent[i]['offset']) for i in want]}"
                              + (f" (entry {case['retime'][0]['id']} was re-timed in place to {case['retime'][0]['cron']!r} at +{case['retime'][0]['at_s']} s)" if case.get("retime") else ""))
             break
     out.nontrivial = crossed or any(s_["kind"] == "label" and len({repr(e.get("offset")) for e in s_["entries"]}) > 1 for s_ in case["sources"])
-    out.classes = ["loop"] + (["label_source_mixed_offsets"] if any(s_["kind"] == "label" and len({repr(e.get("offset")) for e in s_["entries"]}) > 1 for s_ in case["sources"]) else []) + (["listing_crossed_minute_boundary"] if crossed else []) + (["slow_source"] if any(s["list_latency"] for s in case["sources"]) else []) + (["label_entry_retimed_in_place"] if case.get("retime") else []) + (["one_shot_listed_before_crons_live_list"] if any(s_.get("live_list") for s_ in case["sources"]) else []) + (["send_outlasts_a_minute"] if max(case.get("latencies") or [0.0]) > 60 else [])
+    out.classes = ["loop"] + (["label_source_mixed_offsets"] if any(s_["kind"] == "label" and len({repr(e.get("offset")) for e in s_["entries"]}) > 1 for s_ in case["sources"]) else []) + (["listing_crossed_minute_boundary"] if crossed else []) + (["slow_source"] if any(s["list_latency"] for s in case["sources"]) else []) + (["label_entry_retimed_in_place"] if case.get("retime") else []) + (["unparsable_sibling_listed_first"] if any(e.get("malformed") for s_ in case["sources"] for e in s_["entries"]) else []) + (["one_shot_listed_before_crons_live_list"] if any(s_.get("live_list") for s_ in case["sources"]) else []) + (["send_outlasts_a_minute"] if max(case.get("latencies") or [0.0]) > 60 else [])
     out.trace = {"kicks": [[k["tag"], k["t"] - case["base_us"]] for k in res["kicks"]][:12]}
     return out
 
